@@ -828,6 +828,276 @@ theorem editAll_simulates (f : Param V → Except Err (Option (Param V)))
     have hok := rebuildLoop_ok f s.params 0 s.clearCaches (validate_ok hv)
     rw [h2 hok, hok]
 
+/-! ### `change_fixed_value` + `update_fixed_param_value_cache` -/
+
+/-- everything of `Coherent` except the content of the fixed value cache (its length is right) -/
+structure CoherentModVals (s : PSet V) : Prop where
+  nodup : (s.params.map (·.name)).Nodup
+  mask : s.fixedMask = s.params.map (·.isfixed)
+  fixedNames : s.fixedNames = (s.params.filter (·.isfixed)).map (·.name)
+  floatNames : s.floatNames = (s.params.filter (fun p => !p.isfixed)).map (·.name)
+  fixedIdx : ∀ n, dget s.fixedIdx n = idxOf? n s.fixedNames
+  floatIdx : ∀ n, dget s.floatIdx n = idxOf? n s.floatNames
+  wf : ∀ p ∈ s.params, ParamWF p
+  valsLen : s.fixedVals.length = (s.params.filter (·.isfixed)).length
+
+theorem Coherent.modVals {s : PSet V} (h : Coherent s) : CoherentModVals s :=
+  ⟨h.nodup, h.mask, h.caches.fixedNames, h.caches.floatNames, h.caches.fixedIdx, h.caches.floatIdx, h.wf,
+   by rw [h.caches.fixedVals, List.length_map]⟩
+
+omit [LinearOrder V] in
+theorem overwrite_same_length (cache xs : List V) (h : cache.length = xs.length) :
+    PSet.overwrite cache xs = (xs, .ok ()) := by
+  induction xs generalizing cache with
+  | nil =>
+    cases cache with
+    | nil => rfl
+    | cons c cache => simp at h
+  | cons x xs ih =>
+    cases cache with
+    | nil => simp at h
+    | cons c cache =>
+      simp only [PSet.overwrite, ih cache (by simpa using h)]
+
+theorem updateCache_coherent {s : PSet V} (h : CoherentModVals s) :
+    s.updateFixedValueCache.2 = .ok () ∧ Coherent s.updateFixedValueCache.1 ∧
+    s.updateFixedValueCache.1.params = s.params := by
+  have hsel : maskSel s.params s.fixedMask = .ok (s.params.filter (·.isfixed)) := by
+    rw [h.mask, maskSel_map]
+  unfold PSet.updateFixedValueCache
+  rw [hsel]
+  simp only
+  rw [overwrite_same_length _ _ (by rw [h.valsLen, List.length_map])]
+  refine ⟨rfl, ⟨h.nodup, h.mask, ⟨h.fixedNames, h.floatNames, ?_, h.fixedIdx, h.floatIdx⟩, h.wf⟩, ?_⟩
+  · rfl
+  · trivial
+
+theorem changeFixedValue_eq {p p' : Param V} {v : V} (h : p.changeFixedValue v = .ok p') :
+    p' = { p with initial := v, value := v } ∧ p.isfixed = true := by
+  unfold Param.changeFixedValue at h
+  by_cases hf : (!p.isfixed) = true
+  · rw [if_pos hf] at h; cases h
+  · rw [if_neg hf] at h
+    have hf' : p.isfixed = true := by simpa using hf
+    exact ⟨by rw [setValue_eq h], hf'⟩
+
+theorem changeFixedAux_ok {n : String} {v : V} {ps ps' : List (Param V)} (hw : ∀ p ∈ ps, ParamWF p)
+    (h : PSet.changeFixedAux n v ps = .ok ps') :
+    ps'.map (·.name) = ps.map (·.name) ∧ ps'.map (·.isfixed) = ps.map (·.isfixed) ∧
+    (ps'.filter (·.isfixed)).map (·.name) = (ps.filter (·.isfixed)).map (·.name) ∧
+    (ps'.filter (fun p => !p.isfixed)).map (·.name) = (ps.filter (fun p => !p.isfixed)).map (·.name) ∧
+    (ps'.filter (·.isfixed)).length = (ps.filter (·.isfixed)).length ∧
+    (∀ p ∈ ps', ParamWF p) := by
+  induction ps generalizing ps' with
+  | nil => cases h
+  | cons p ps ih =>
+    unfold PSet.changeFixedAux at h
+    by_cases hn : p.name = n
+    · rw [if_pos hn] at h
+      cases hs : p.changeFixedValue v with
+      | error e => rw [hs] at h; cases h
+      | ok p' =>
+        rw [hs] at h
+        cases h
+        obtain ⟨he, hf⟩ := changeFixedValue_eq hs
+        subst he
+        refine ⟨by simp, by simp, by simp [List.filter_cons, hf], by simp [List.filter_cons, hf],
+          by simp [List.filter_cons, hf], ?_⟩
+        intro q hq
+        rcases List.mem_cons.1 hq with h5 | h5
+        · subst h5
+          exact ⟨fun _ => rfl, fun h2 => by simp [hf] at h2⟩
+        · exact hw q (by simp [h5])
+    · rw [if_neg hn] at h
+      cases hs : PSet.changeFixedAux n v ps with
+      | error e => rw [hs] at h; cases h
+      | ok ps'' =>
+        rw [hs] at h
+        cases h
+        obtain ⟨h1, h2, h3, h4, h5, h6⟩ := ih (fun q hq => hw q (by simp [hq])) hs
+        refine ⟨by simp [h1], by simp [h2], ?_, ?_, ?_, ?_⟩
+        · simp only [List.filter_cons]; split <;> simp [h3]
+        · simp only [List.filter_cons]; split <;> simp [h4]
+        · simp only [List.filter_cons]; split <;> simp [h5]
+        · intro q hq
+          rcases List.mem_cons.1 hq with h7 | h7
+          · subst h7; exact hw _ (by simp)
+          · exact h6 q h7
+
+theorem changeFixedRaw_modVals {s : PSet V} (hs : Coherent s) (n : String) (v : V) :
+    CoherentModVals (s.changeFixedRaw n v).1 := by
+  unfold PSet.changeFixedRaw
+  cases h : PSet.changeFixedAux n v s.params with
+  | error e => exact hs.modVals
+  | ok ps' =>
+    obtain ⟨h1, h2, h3, h4, h5, h6⟩ := changeFixedAux_ok hs.wf h
+    have hc := hs.caches
+    exact ⟨by simpa [h1] using hs.nodup, by simpa [h2] using hs.mask, by simpa [h3] using hc.fixedNames,
+      by simpa [h4] using hc.floatNames, hc.fixedIdx, hc.floatIdx, h6,
+      by simp only [h5]; rw [hc.fixedVals, List.length_map]⟩
+
+theorem changeFixedValue_coherent {s : PSet V} (hs : Coherent s) (n : String) (v : V) :
+    Coherent (s.changeFixedValue n v).1 ∧ (∀ e, (s.changeFixedValue n v).2 = .error e → (s.changeFixedValue n v).1 = s) := by
+  have hm := changeFixedRaw_modVals hs n v
+  unfold PSet.changeFixedValue
+  unfold PSet.changeFixedRaw at hm ⊢
+  cases h : PSet.changeFixedAux n v s.params with
+  | error e => exact ⟨hs, fun _ _ => rfl⟩
+  | ok ps' =>
+    rw [h] at hm
+    simp only at hm ⊢
+    obtain ⟨h1, h2, _⟩ := updateCache_coherent hm
+    exact ⟨h2, fun e he => by rw [h1] at he; cases he⟩
+
+theorem changeFixedAux_spec (n : String) (v : V) (ps : List (Param V)) (hnd : (ps.map (·.name)).Nodup) :
+    PSet.changeFixedAux n v ps = match ps.find? (fun p => p.name = n) with
+      | none => .error .keyError
+      | some p => match p.changeFixedValue v with
+        | .error e => .error e
+        | .ok _ => .ok (ps.map (fun q => if q.name = n then { q with initial := v, value := v } else q)) := by
+  induction ps with
+  | nil => rfl
+  | cons p ps ih =>
+    rw [List.map_cons, List.nodup_cons] at hnd
+    unfold PSet.changeFixedAux
+    by_cases hn : p.name = n
+    · rw [if_pos hn]
+      simp only [List.find?_cons, hn, decide_true]
+      cases hs : p.changeFixedValue v with
+      | error e => rfl
+      | ok p' =>
+        simp only
+        have htail : ps.map (fun q => if q.name = n then { q with initial := v, value := v } else q) = ps := by
+          conv_rhs => rw [← List.map_id ps]
+          apply List.map_congr_left
+          intro q hq
+          have : q.name ≠ n := fun h => hnd.1 (by rw [hn, ← h]; exact List.mem_map_of_mem hq)
+          simp [this]
+        simp only [List.map_cons, hn, if_true, htail, (changeFixedValue_eq hs).1]
+    · rw [if_neg hn, ih hnd.2]
+      simp only [List.find?_cons, hn, decide_false]
+      cases ps.find? (fun p => p.name = n) with
+      | none => rfl
+      | some q =>
+        simp only
+        cases q.changeFixedValue v with
+        | error e => rfl
+        | ok q' => simp [hn]
+
+theorem changeFixedValue_simulates {s : PSet V} (hs : Coherent s) (n : String) (v : V) :
+    ((s.changeFixedValue n v).1.params, (s.changeFixedValue n v).2) =
+      match PSet.changeFixedAux n v s.params with
+      | .ok ps' => (ps', .ok ())
+      | .error e => (s.params, .error e) := by
+  have hm := changeFixedRaw_modVals hs n v
+  unfold PSet.changeFixedValue
+  unfold PSet.changeFixedRaw at hm ⊢
+  cases h : PSet.changeFixedAux n v s.params with
+  | error e => rfl
+  | ok ps' =>
+    rw [h] at hm
+    simp only at hm ⊢
+    obtain ⟨h1, _, h3⟩ := updateCache_coherent hm
+    rw [h1, h3]
+
+theorem changeFixedValue_length {s : PSet V} (hs : Coherent s) (n : String) (v : V) :
+    (s.changeFixedValue n v).1.params.length = s.params.length := by
+  have h := congrArg Prod.fst (changeFixedValue_simulates hs n v)
+  simp only at h
+  rw [h]
+  cases hc : PSet.changeFixedAux n v s.params with
+  | error e => rfl
+  | ok ps' =>
+    have := congrArg List.length (changeFixedAux_ok hs.wf hc).1
+    simpa using this
+
+/-! ### n-ary union -/
+
+theorem addMissingAll_params {u : PSet V} {bs : List (PSet V)} (hu : Coherent u) (hb : ∀ b ∈ bs, Coherent b) :
+    ∃ u', PSet.addMissingAll u bs = .ok u' ∧ Coherent u' ∧
+      u'.params = bs.foldl (fun acc b => Spec.unionList acc b.params) u.params := by
+  induction bs generalizing u with
+  | nil => exact ⟨u, rfl, hu, rfl⟩
+  | cons b bs ih =>
+    have hbc := hb b (by simp)
+    obtain ⟨u1, h1, hc1, hp1⟩ := addMissing_params hu hbc.wf hbc.nodup
+    obtain ⟨u', h2, hc2, hp2⟩ := ih hc1 (fun x hx => hb x (by simp [hx]))
+    refine ⟨u', ?_, hc2, ?_⟩
+    · unfold PSet.addMissingAll; rw [h1]; exact h2
+    · rw [hp2, hp1]; rfl
+
+theorem unionN_params {a : PSet V} {rest : List (PSet V)} (ha : Coherent a) (hr : ∀ b ∈ rest, Coherent b) :
+    ∃ u, PSet.unionN (a :: rest) = .ok u ∧ Coherent u ∧
+      u.params = Spec.unionAll ((a :: rest).map (·.params)) := by
+  obtain ⟨u0, h0, hc0, hp0⟩ := addAll_params (s := PSet.empty) (ps := a.params) coherent_empty ha.wf
+    (by simpa [PSet.empty] using ha.nodup)
+  have hp0' : u0.params = a.params := by simpa [PSet.empty] using hp0
+  obtain ⟨u, h1, hc1, hp1⟩ := addMissingAll_params hc0 hr
+  refine ⟨u, ?_, hc1, ?_⟩
+  · simp only [PSet.unionN, h0]; exact h1
+  · rw [hp1, hp0']
+    simp only [List.map_cons, Spec.unionAll, List.foldl_map]
+
+theorem createSets_spec (others : List (List (PArgs V))) :
+    match Spec.createLists others with
+    | .error e => createSets others = .error e
+    | .ok oss => ∃ ts, createSets others = .ok ts ∧ ts.map (·.params) = oss ∧ ∀ t ∈ ts, Coherent t := by
+  induction others with
+  | nil => exact ⟨[], rfl, rfl, by simp⟩
+  | cons o os ih =>
+    unfold Spec.createLists createSets
+    cases hc : createAll o with
+    | error e => rfl
+    | ok ps =>
+      simp only
+      have hw := createAll_wf hc
+      by_cases hnd : (ps.map (·.name)).Nodup
+      · rw [if_pos hnd]
+        obtain ⟨t, ht, htc, htp⟩ := addAll_params (s := PSet.empty) (ps := ps) coherent_empty hw
+          (by simpa [PSet.empty] using hnd)
+        have htp' : t.params = ps := by simpa [PSet.empty] using htp
+        rw [ht]
+        simp only
+        cases hl : Spec.createLists os with
+        | error e => rw [hl] at ih; simp only at ih ⊢; rw [ih]
+        | ok oss =>
+          rw [hl] at ih
+          obtain ⟨ts, h1, h2, h3⟩ := ih
+          simp only
+          refine ⟨t :: ts, by rw [h1], by simp [htp', h2], ?_⟩
+          intro x hx
+          rcases List.mem_cons.1 hx with h4 | h4
+          · subst h4; exact htc
+          · exact h3 x h4
+      · rw [if_neg hnd, addAll_dup (s := PSet.empty) coherent_empty hw (by simpa [PSet.empty] using hnd)]
+
+omit [LinearOrder V] in
+theorem insertAt_ne_nil {α : Type} (l : List α) (pos : Nat) (x : α) : insertAt l pos x ≠ [] := by
+  unfold insertAt; simp
+
+omit [LinearOrder V] in
+theorem map_insertAt {α β : Type} (f : α → β) (l : List α) (pos : Nat) (x : α) :
+    (insertAt l pos x).map f = insertAt (l.map f) pos (f x) := by
+  unfold insertAt; simp [List.map_take, List.map_drop]
+
+theorem unionN_insert {s : PSet V} (hs : Coherent s) {ts : List (PSet V)} (ht : ∀ t ∈ ts, Coherent t) (pos : Nat) :
+    ∃ u, PSet.unionN (insertAt ts pos s) = .ok u ∧ Coherent u ∧
+      u.params = Spec.unionAll (insertAt (ts.map (·.params)) pos s.params) := by
+  have hall : ∀ x ∈ insertAt ts pos s, Coherent x := by
+    intro x hx
+    unfold insertAt at hx
+    rcases List.mem_append.1 hx with h | h
+    · exact ht x (List.mem_of_mem_take h)
+    · rcases List.mem_cons.1 h with h | h
+      · subst h; exact hs
+      · exact ht x (List.mem_of_mem_drop h)
+  rw [← map_insertAt]
+  cases hl : insertAt ts pos s with
+  | nil => exact absurd hl (insertAt_ne_nil ts pos s)
+  | cons a rest =>
+    rw [hl] at hall
+    exact unionN_params (hall a (by simp)) (fun b hb => hall b (by simp [hb]))
+
 end order
 
 /-! ### the per-source table -/
